@@ -226,7 +226,7 @@ class Phase:
     """One exploration: a body, a bound and how to run it."""
 
     def __init__(self, name, body, bound=None, horizon_s=20.0, setup=None, max_execs=None,
-                 describe=None, shard_target=192, serial=False):
+                 describe=None, chunk=None, serial=False):
         self.name = name
         self.body = body
         self.bound = bound
@@ -234,7 +234,7 @@ class Phase:
         self.setup = setup          # called once per worker process before its first execution
         self.max_execs = max_execs  # cap per phase (reported if hit)
         self.describe = describe
-        self.shard_target = shard_target
+        self.chunk = chunk
         self.serial = serial
 
 
@@ -306,18 +306,22 @@ def _expand(phase, prefix, pre_n, pre_tag, tier, res):
     return kids
 
 
-def explore_subtree(phase, root, tier, res, budget=None):
-    stack = [root]
+def explore_roots(phase, roots, tier, res, budget=None):
+    """Depth-first exploration of the subtrees below `roots`; stops after `budget`
+    executions and returns the unexplored remainder of the stack (list of roots)."""
+    stack = list(roots)
+    stack.reverse()
+    n = 0
     while stack:
         prefix, pre_n, pre_tag = stack.pop()
         kids = _expand(phase, prefix, pre_n, pre_tag, tier, res)
         kids.reverse()
         stack.extend(kids)
-        if budget is not None and res.executions >= budget:
-            if stack:
-                res.cap_hit = True
+        n += 1
+        if budget is not None and n >= budget:
             break
-    return res
+    stack.reverse()
+    return stack
 
 
 # ---- parallel driver ---------------------------------------------------------------
@@ -340,31 +344,37 @@ def _w_setup(pi):
     return ph
 
 
-def _w_expand(args):
-    pi, root = args
+def _w_task(args):
+    pi, roots, budget = args
     res = Result()
+    left = []
     try:
         ph = _w_setup(pi)
-        kids = _expand(ph, root[0], root[1], root[2], _W['tier'], res)
+        left = explore_roots(ph, roots, _W['tier'], res, budget)
     except HarnessError as e:
         res.harness_errors.append('%s: %s' % (type(e).__name__, e))
-        kids = []
-    return res, kids
+    except BaseException as e:   # noqa
+        res.harness_errors.append('worker crashed: %s' % ''.join(traceback.format_exception(e))[-3000:])
+    return res, left
 
 
-def _w_subtree(args):
-    pi, root, budget = args
-    res = Result()
-    try:
-        ph = _w_setup(pi)
-        explore_subtree(ph, root, _W['tier'], res, budget)
-    except HarnessError as e:
-        res.harness_errors.append('%s: %s' % (type(e).__name__, e))
-    return res
+def _split(left, nparts):
+    """Split the remainder of a DFS stack into tasks: shallow roots (large subtrees)
+    individually, the deep tail together."""
+    if not left:
+        return []
+    left = sorted(left, key=lambda r: len(r[0]))
+    head = left[:nparts]
+    tail = left[nparts:]
+    tasks = [[r] for r in head]
+    if tail:
+        tasks.append(tail)
+    return tasks
 
 
 def run_phases(phases, tier='quick', workers=None, progress=None):
     """Explore every phase; returns {phase name: Result}."""
+    import queue as _q
     workers = workers or min(16, os.cpu_count() or 1)
     out = {}
     serial = workers <= 1 or all(p.serial for p in phases)
@@ -379,34 +389,55 @@ def run_phases(phases, tier='quick', workers=None, progress=None):
             t0 = time.time()
             total = Result()
             root = ((), (), ())
+            chunk = getattr(ph, 'chunk', None) or 2000
             if pool is None or ph.serial:
-                if pool is None:
-                    r = _w_subtree((pi, root, ph.max_execs))
-                else:
-                    r = pool.apply(_w_subtree, ((pi, root, ph.max_execs),))
-                total.merge(r)
-            else:
-                frontier = [root]
-                # breadth-first expansion of the DFS tree until there are enough subtrees
-                rounds = 0
-                while frontier and len(frontier) < ph.shard_target and rounds < 6:
-                    rounds += 1
-                    frontier.sort(key=lambda r: len(r[0]))
-                    take = frontier[:max(workers, 1) * 2]
-                    rest = frontier[len(take):]
-                    new = []
-                    for r, kids in pool.imap_unordered(_w_expand, [(pi, t) for t in take]):
-                        total.merge(r)
-                        new.extend(kids)
-                    frontier = rest + new
+                tasks = [[root]]
+                while tasks:
+                    t = tasks.pop()
+                    if ph.max_execs is not None and total.executions >= ph.max_execs:
+                        total.cap_hit = True
+                        break
+                    if pool is None:
+                        r, left = _w_task((pi, t, chunk))
+                    else:
+                        r, left = pool.apply(_w_task, ((pi, t, chunk),))
+                    total.merge(r)
+                    if left:
+                        tasks.append(left)
                     if total.harness_errors:
                         break
-                frontier.sort(key=lambda r: len(r[0]))
-                budget = None
-                if ph.max_execs is not None:
-                    budget = max(1, (ph.max_execs - total.executions) // max(1, len(frontier)))
-                for r in pool.imap_unordered(_w_subtree, [(pi, t, budget) for t in frontier]):
-                    total.merge(r)
+            else:
+                rq = _q.Queue()
+                outstanding = 0
+                backlog = [[root]]
+                first = True
+                while backlog or outstanding:
+                    while backlog and outstanding < workers * 3:
+                        t = backlog.pop()
+                        if ph.max_execs is not None and total.executions + outstanding * chunk >= ph.max_execs:
+                            total.cap_hit = True
+                            backlog = []
+                            break
+                        # the very first tasks get a small budget so the tree fans out quickly
+                        b = 1 if first else chunk
+                        pool.apply_async(_w_task, ((pi, t, b),), callback=rq.put,
+                                         error_callback=rq.put)
+                        outstanding += 1
+                    if not outstanding:
+                        break
+                    r = rq.get()
+                    outstanding -= 1
+                    if isinstance(r, BaseException):
+                        total.harness_errors.append('pool error: %r' % (r,))
+                        break
+                    res, left = r
+                    total.merge(res)
+                    if total.harness_errors:
+                        break
+                    if first and total.executions >= workers * 2:
+                        first = False
+                    backlog.extend(_split(left, workers))
+                    backlog.sort(key=lambda t: -len(t[0][0]))  # pop() takes the shallowest
             total.wall_s = time.time() - t0
             out[ph.name] = total
             if progress:
